@@ -384,7 +384,10 @@ fn number_format_battery(seed: u64, extra: usize, fail: &mut dyn FnMut(&str, Str
     for &x in &xs {
         for &v in &[x, -x] {
             cases += 1;
-            let t = number_to_string(v);
+            let t = match std::panic::catch_unwind(|| number_to_string(v)) {
+                Ok(t) => t,
+                Err(_) => { fail("number_to_string/ensures#total", format!("sig=panic x=0x{:016x} ({:e}): number_to_string panicked", v.to_bits(), v)); continue; }
+            };
             let id = format!("x=0x{:016x} printed {:?}", v.to_bits(), t);
             let parsed = match parse_js_number_text(&t) {
                 Some(p) => p,
@@ -465,7 +468,7 @@ fn number_format_battery(seed: u64, extra: usize, fail: &mut dyn FnMut(&str, Str
     for &y in &ys {
         for &v in &[y, -y] {
             let lit = js_lit(v);
-            let printed = number_to_string(v);
+            let printed = match std::panic::catch_unwind(|| number_to_string(v)) { Ok(t) => t, Err(_) => continue };
             batch.push(("String_of_number".into(), "sig=String(x)".into(), format!("String({})", lit), printed.clone()));
             batch.push(("Number_prototype_toString".into(), "sig=toString()".into(), format!("({}).toString()", lit), printed.clone()));
             batch.push(("template_and_concat".into(), "sig=concat".into(), format!("('' + {})", lit), printed.clone()));
@@ -663,6 +666,8 @@ fn verif_side_c15() {
             println!("VERIF-SIDE-FAIL obligation=side/C15/{} {}", name, what);
         }
     };
+    std::panic::set_hook(Box::new(|_| {}));
     let more = number_format_battery(seed, extra, &mut fail2);
+    let _ = std::panic::take_hook();
     println!("VERIF-SIDE-DONE cases={}", cases + more);
 }
